@@ -33,6 +33,7 @@ import (
 	"encoding/json"
 	"fmt"
 	"net/url"
+	"path/filepath"
 	"regexp"
 	"sort"
 	"strings"
@@ -408,8 +409,9 @@ type verifC14Compiled struct {
 	rbac *envoy_rbac_v3.RBAC
 	eval *verifC14Eval
 	// diagnosis only
-	evalQuoted  *verifC14Eval // identity regexes with their literal segments regex-quoted
-	evalEscaped *verifC14Eval // ... and URL-path-escaped as they are in a certificate
+	evalNames   *verifC14Eval // identity regexes with their literal PATH segments (names) regex-quoted
+	evalQuoted  *verifC14Eval // ... and the trust domain too
+	evalEscaped *verifC14Eval // ... and the names URL-path-escaped as they are in a certificate
 }
 
 func verifC14ToConsulPerm(pm verifC14Perm) *structs.IntentionPermission {
@@ -508,16 +510,17 @@ func verifC14Compile(p *verifC14Program) (*verifC14Compiled, error) {
 	if !proto.Equal(direct, rules) {
 		return nil, fmt.Errorf("filter rules differ from makeRBACRules output:\nfilter: %s\nrules:  %s", protojson.Format(rules), protojson.Format(direct))
 	}
-	cp := &verifC14Compiled{prog: p, rbac: rules, eval: verifC14NewEval(), evalQuoted: verifC14NewEval(), evalEscaped: verifC14NewEval()}
-	cp.evalQuoted.identityRegex = func(s string) (string, bool) { return verifC14Requote(s, false) }
-	cp.evalEscaped.identityRegex = func(s string) (string, bool) { return verifC14Requote(s, true) }
+	cp := &verifC14Compiled{prog: p, rbac: rules, eval: verifC14NewEval(), evalNames: verifC14NewEval(), evalQuoted: verifC14NewEval(), evalEscaped: verifC14NewEval()}
+	cp.evalNames.identityRegex = func(s string) (string, bool) { return verifC14Requote(s, false, false) }
+	cp.evalQuoted.identityRegex = func(s string) (string, bool) { return verifC14Requote(s, true, false) }
+	cp.evalEscaped.identityRegex = func(s string) (string, bool) { return verifC14Requote(s, true, true) }
 	return cp, nil
 }
 
 // verifC14Requote rebuilds an identity regex the way it is MEANT: the `[^/]+` wildcards (and the XFCC frame) stay,
-// every literal segment is matched literally (regexp.QuoteMeta), optionally after URL path escaping.
-// Used only to name the root cause of a disagreement. ok=false if the pattern has an unknown shape.
-func verifC14Requote(pattern string, escape bool) (string, bool) {
+// every literal path segment is matched literally (regexp.QuoteMeta), optionally the trust domain too, optionally
+// after URL path escaping. Used only to name the root cause of a disagreement. ok=false: unknown pattern shape.
+func verifC14Requote(pattern string, quoteHost, escape bool) (string, bool) {
 	const xfccHead, xfccTail = `^[^,]+;URI=`, `(?:,.*)?$`
 	head, tail, body := "^", "$", pattern
 	switch {
@@ -529,12 +532,17 @@ func verifC14Requote(pattern string, escape bool) (string, bool) {
 	default:
 		return "", false
 	}
-	if !strings.HasPrefix(body, "spiffe://") {
+	const scheme = "spiffe://"
+	if !strings.HasPrefix(body, scheme) {
 		return "", false
 	}
-	parts := strings.Split(body, `[^/]+`)
-	for i, lit := range parts {
-		// undo an existing regex quoting (a fixed makeSpiffePattern), names never contain a backslash
+	body = body[len(scheme):]
+	slash := strings.IndexByte(body, '/')
+	if slash < 0 {
+		return "", false
+	}
+	host, path := body[:slash], body[slash:]
+	unquote := func(lit string) string { // undo an existing regex quoting; names never contain a backslash
 		var sb strings.Builder
 		for j := 0; j < len(lit); j++ {
 			if lit[j] == '\\' && j+1 < len(lit) {
@@ -542,17 +550,20 @@ func verifC14Requote(pattern string, escape bool) (string, bool) {
 			}
 			sb.WriteByte(lit[j])
 		}
-		lit = sb.String()
+		return sb.String()
+	}
+	if quoteHost {
+		host = regexp.QuoteMeta(unquote(host))
+	}
+	parts := strings.Split(path, `[^/]+`)
+	for i, lit := range parts {
+		lit = unquote(lit)
 		if escape {
-			pre := ""
-			if i == 0 {
-				pre, lit = "spiffe://", strings.TrimPrefix(lit, "spiffe://")
-			}
-			lit = pre + (&url.URL{Path: lit}).EscapedPath()
+			lit = (&url.URL{Path: lit}).EscapedPath()
 		}
 		parts[i] = regexp.QuoteMeta(lit)
 	}
-	return head + strings.Join(parts, `[^/]+`) + tail, true
+	return head + scheme + host + strings.Join(parts, `[^/]+`) + tail, true
 }
 
 func verifC14ConnOf(p *verifC14Program, c *verifC14Caller) *verifC14Conn {
@@ -648,8 +659,12 @@ func verifC14CheckOne(f verifkit.F, c *verifkit.Case, rec *verifkit.Rec, cp *ver
 		listener = "http"
 	}
 	key := fmt.Sprintf("C14/disagree/%s/%s/rbac-%ss", listener, v.Class, verifC14Action(got))
-	if q, _, qerr := cp.evalQuoted.Allowed(cp.rbac, conn); qerr == nil && q == v.Allowed {
-		key = "C14/spiffe-regex-unescaped"
+	if q, _, qerr := cp.evalNames.Allowed(cp.rbac, conn); qerr == nil && q == v.Allowed {
+		// the verdict is right once service names / partitions in the SPIFFE regexes are taken literally
+		key = "C14/spiffe-regex-unescaped/service-name"
+	} else if q, _, qerr := cp.evalQuoted.Allowed(cp.rbac, conn); qerr == nil && q == v.Allowed {
+		// ... once the trust domain is taken literally as well
+		key = "C14/spiffe-regex-unescaped/trust-domain"
 	} else if q, _, qerr := cp.evalEscaped.Allowed(cp.rbac, conn); qerr == nil && q == v.Allowed {
 		key = "C14/spiffe-pattern-not-url-escaped"
 	} else if alt := verifC14DecideRank(p, caller, false, true); alt.Defined && alt.Allowed == got &&
@@ -1395,33 +1410,35 @@ func TestVerifC14Replay(t *testing.T) {
 	rec := verifkit.For("C14")
 	defer rec.Flush()
 	for _, path := range verifkit.ReplayFiles("C14") {
-		rp, err := verifkit.LoadReplay(path)
-		if err != nil {
-			t.Fatalf("%v", err)
-		}
-		if len(rp.Ops) == 0 {
-			continue
-		}
-		var p verifC14Program
-		if err := json.Unmarshal(rp.Ops[0], &p); err != nil || p.Kind != "program" {
-			t.Fatalf("%s: ops[0] is not a program: %v", path, err)
-		}
-		var only *verifC14Caller
-		if len(rp.Ops) > 1 {
-			var cl verifC14Caller
-			if err := json.Unmarshal(rp.Ops[len(rp.Ops)-1], &cl); err != nil || cl.Kind != "caller" {
-				t.Fatalf("%s: last op is not a caller: %v", path, err)
+		path := path
+		// one subtest per file: a witness that fires does not hide the others
+		t.Run(filepath.Base(path), func(t *testing.T) {
+			rp, err := verifkit.LoadReplay(path)
+			if err != nil {
+				t.Fatalf("%v", err)
 			}
-			only = &cl
-		}
-		c := rec.NewCase()
-		c.Op(&p)
-		c.Label("replay")
-		func() {
+			if len(rp.Ops) == 0 {
+				return
+			}
+			var p verifC14Program
+			if err := json.Unmarshal(rp.Ops[0], &p); err != nil || p.Kind != "program" {
+				t.Fatalf("%s: ops[0] is not a program: %v", path, err)
+			}
+			var only *verifC14Caller
+			if len(rp.Ops) > 1 {
+				var cl verifC14Caller
+				if err := json.Unmarshal(rp.Ops[len(rp.Ops)-1], &cl); err != nil || cl.Kind != "caller" {
+					t.Fatalf("%s: last op is not a caller: %v", path, err)
+				}
+				only = &cl
+			}
+			c := rec.NewCase()
+			c.Op(&p)
+			c.Label("replay")
 			defer c.GuardPanic(t, "C14/panic")
 			verifC14Run(t, c, rec, &p, only)
-		}()
-		c.Done()
+			c.Done()
+		})
 	}
 }
 
